@@ -11,14 +11,14 @@ VARIABLES c, k, ipT, binT
 ConfigsA ==
   { x \in [N : { n \in 4..MaxN : n % 2 = 0 }, R : 1..MaxR, span : 1..(2 * MaxR - 1), ge : BOOLEAN,
            maxDelta : 0..(MaxR - 1), mash : 1..(MaxN \div 2), tofMash : {0} \cup { m \in 1..MaxTofMash : m % 2 = 1 },
-           maxT : {5}, minTang : {0}, maxTang : {0}, minSeg : {0}, maxSeg : 0..(MaxR - 1), trunc : 0..2] :
+           maxT : {5}, minTang : {0}, maxTang : {0}, minSeg : {0}, maxSeg : 0..(MaxR - 1), trunc : 0..2, asym : 0..3] :
       /\ (x.ge => x.span = 1)
       /\ x.mash \in {1, 2, 3}
       /\ x.maxSeg = FullMaxSeg(x) }
 ConfigsB ==
   { x \in [N : {4}, R : (MaxR + 1)..MaxRB, span : 2..(2 * MaxRB - 1), ge : {FALSE},
            maxDelta : 1..(MaxRB - 1), mash : {1}, tofMash : {0, 1},
-           maxT : {3}, minTang : {0}, maxTang : {0}, minSeg : {0}, maxSeg : 0..(MaxRB - 1), trunc : {0}] :
+           maxT : {3}, minTang : {0}, maxTang : {0}, minSeg : {0}, maxSeg : 0..(MaxRB - 1), trunc : {0}, asym : {0, 1}] :
       /\ x.maxSeg = FullMaxSeg(x) }
 Configs == ConfigsA \cup ConfigsB
 \* tangential range: full (trunc = 0), reduced (trunc = 1, as an even num_tangential_poss gives) or one-sided
@@ -27,7 +27,10 @@ Norm(x) == [N |-> x.N, R |-> x.R, span |-> x.span, ge |-> x.ge, maxDelta |-> x.m
             tofMash |-> x.tofMash, maxT |-> x.maxT,
             minTang |-> IF x.trunc \in {0, 2} THEN -(x.N \div 2) + 1 ELSE -((x.N \div 2) \div 2),
             maxTang |-> IF x.trunc = 0 THEN (x.N \div 2) - 1 ELSE IF x.trunc = 1 THEN ((x.N \div 2) \div 2) - 1 ELSE 0,
-            minSeg |-> -x.maxSeg, maxSeg |-> x.maxSeg]
+            \* segment range: symmetric, or asymmetric as reduce_segment_range allows (ending at 0 on either side,
+            \* one segment fewer on the positive side)
+            minSeg |-> IF x.asym = 2 THEN 0 ELSE -x.maxSeg,
+            maxSeg |-> IF x.asym = 1 THEN 0 ELSE IF x.asym = 3 THEN Max2(0, x.maxSeg - 1) ELSE x.maxSeg]
 
 \* the escape clauses of the round-trip theorem are not vacuous: witnesses (evaluated once)
 WitnessC == [N |-> 8, R |-> 5, span |-> 3, ge |-> FALSE, maxDelta |-> 4, mash |-> 1, tofMash |-> 0, maxT |-> 0,
